@@ -143,6 +143,43 @@ def run(ck):
         if r is None:
             r = _reach[e.qualname] = cg.reachable([e])
         return r
+    def flows_to_comment(k, f, node, depth=0, seen=None):
+        """(ok, offending node): the value of expression `node` in function f ends only in `comments=` keywords — directly, through a
+        local name all of whose uses do, or through the function's return value at every call site (def-use, 4 levels)."""
+        seen = set() if seen is None else seen
+        if depth > 4 or (k, id(node)) in seen:
+            return False, node
+        seen.add((k, id(node)))
+        cur = node
+        while cur in parents:
+            par = parents[cur]
+            if isinstance(par, ast.keyword) and par.arg in ("comments", "comment"):
+                return True, cur
+            if isinstance(par, ast.stmt):
+                break
+            cur = par
+        st = parents.get(cur)
+        if isinstance(st, ast.Return):
+            sites = [(ck, n) for (ck, cal), ns in cg.sites.items() if cal == k for n in ns]
+            for ck, n in sites:
+                ok, bad = flows_to_comment(ck, cg.funcs[ck], n, depth + 1, seen)
+                if not ok:
+                    return False, bad
+            return True, cur
+        tgt = None
+        if isinstance(st, ast.Assign) and len(st.targets) == 1 and isinstance(st.targets[0], ast.Name):
+            tgt = st.targets[0].id
+        elif isinstance(st, (ast.AnnAssign, ast.AugAssign)) and isinstance(st.target, ast.Name):
+            tgt = st.target.id
+        if tgt is not None:
+            uses = [n for n in ast.walk(f.node) if isinstance(n, ast.Name) and n.id == tgt and isinstance(n.ctx, ast.Load)]
+            for u in uses:
+                ok, bad = flows_to_comment(k, f, u, depth + 1, seen)
+                if not ok:
+                    return False, bad
+            return True, cur
+        return False, cur
+
     for k, f in cg.funcs.items():
         for dotted, node in cg.externals[k]:
             if any(dotted == a or dotted.startswith(a) for a in RANDOM):
@@ -155,13 +192,8 @@ def run(ck):
                 cur = node
                 # a helper that only the persistence functions reach (the directory-name generator) is outside the modelling calls
                 ok = not any(k in reach_of(e) for e in eps)
-                while cur in parents and not ok:
-                    par = parents[cur]
-                    if isinstance(par, ast.keyword) and par.arg in ("comments", "comment"):
-                        ok = True
-                    if isinstance(par, ast.stmt):
-                        break
-                    cur = par
+                if not ok:
+                    ok, cur = flows_to_comment(k, f, node)
                 ck.ob("Q3", f.qualname, "clock / hash value flows only into a comment string or a directory name", f.loc(node), ok,
                       "%s used in %s" % (dotted, ast.unparse(parents.get(cur, cur))[:120]))
     ck.floor("ambient-source call sites classified", n_amb, 2)
